@@ -559,3 +559,41 @@ PLANS["C06"] = dict(
         validate=dict(module="Trace_Verifier", cfg=trace_cfg(["verdict", "outcome", "results", "actions"])),
     )],
 )
+
+# ------------------------------------------------------------------ C12
+def c12_bytes(tier, seed):
+    n = 400 if tier == "thorough" else 40
+    items = []
+    for lvl in ("strict", "permissive", "audit", "skip"):
+        for k in range(8):
+            items.append({"in": {"target": "envelope", "level": lvl, "n": n}})
+    for k in range(8):
+        items.append({"in": {"target": "policy-json", "level": "-", "n": n}})
+        items.append({"in": {"target": "cache-file", "level": "-", "n": n // 2}})
+        items.append({"in": {"target": "registry", "level": "-", "n": n // 2}})
+    for k in range(4):
+        items.append({"in": {"target": "config-files", "level": "-", "n": n // 4}})
+    return items
+
+
+PLANS["C12"] = dict(
+    level_text="Matrix (decided by the model): EntryPoints.tla builds, on top of the staged Verifier model, the expected result of every "
+               "verification entry point (verifier.Verify, verifier.VerifyBlob, notation.Verify, notation.VerifyBlob, then outcome.UserMetadata) "
+               "for every verifier construction (OCI-only, blob-only, both; named/global blob statement; plugin manager missing; each revocation "
+               "option) x level (strict, permissive, audit, skip) x signature (valid, invalid, garbage, empty) x plugin demanded or not, and "
+               "TLC checks the consistency clauses on it; every cell is executed and validated. Bytes (sampled): every real call runs under "
+               "recover(); a seeded mutational driver feeds mutated envelopes to all four levels, mutated JSON to the policy / signing-key / "
+               "config loaders, mutated cache files, hostile manifests and lying descriptors to the registry client, with an allocation watchdog; "
+               "the trace spec judges only the universal clauses there (normal return, bounded allocation, consistent outcome).",
+    level_note="Trusted: TLC, the Go runtime's recover/MemStats. The byte-level universals are sampled, not exhaustive; plugin output and plugin "
+               "answers are covered by the C17/C18 drivers, which also run under recover().",
+    rule="matrix: all cells of MC_EntryPoints_C12; bytes: seeded mutations of valid inputs (counted per call); non-trivial = expected failure, "
+         "skip level, missing document, or any mutated input",
+    exhaustive=False,
+    phases=[
+        dict(name="matrix", gen=dict(module="MC_EntryPoints_C12", cfg=mc_cfg(["Inv_C12", "Inv_Emit"]), select=take_all),
+             drive=dict(driver="entrypoints"), validate=dict(module="Trace_EntryPoints", cfg=trace_cfg(consts=['Mode = "matrix"']))),
+        dict(name="bytes", static_cases=c12_bytes, drive=dict(driver="fuzz-bytes"),
+             validate=dict(module="Trace_EntryPoints", cfg=trace_cfg(consts=['Mode = "bytes"']), recheck=False)),
+    ],
+)
